@@ -27,6 +27,24 @@ fn check_value(r: &Report, sub: &str, e: &TypeEntry, v: &dyn ErasedVal) -> bool 
         }
     };
     let want = canon(&e.shape, &v.model());
+    // every public entry point is its own code path: they must agree with to_vec / len / Decoder::decode
+    for (how, alt) in v.alt_encodings() {
+        if alt.as_ref().ok() != Some(&bytes) {
+            r.fail(sub, None, json!({"type": e.name, "value": v.debug(), "entry_point": how}), format!("{} produced {:?}, to_vec produced {}", how, alt.map(|b| hex(&b[..b.len().min(48)])), hex(&bytes[..bytes.len().min(48)])));
+            return false;
+        }
+    }
+    if v.alt_len() != v.cbor_len() {
+        r.fail(sub, None, json!({"type": e.name, "value": v.debug()}), format!("len_with() = {} but len() = {}", v.alt_len(), v.cbor_len()));
+        return false;
+    }
+    for (how, res, pos) in v.alt_decodes(&bytes) {
+        let good = matches!(&res, Ok(m) if canon(&e.shape, m) == want) && pos.map(|p| p == bytes.len()).unwrap_or(true);
+        if !good {
+            r.fail(sub, None, json!({"type": e.name, "value": v.debug(), "entry_point": how, "encoded_hex": hex(&bytes[..bytes.len().min(48)])}), format!("{} returned {:?} (position {:?}), the value is {}", how, res.map(|m| m.diag().chars().take(80).collect::<String>()), pos, want.diag().chars().take(80).collect::<String>()));
+            return false;
+        }
+    }
     for suffix in [&[][..], &[0x00][..], &[0xff][..]] {
         let mut input = bytes.clone();
         input.extend_from_slice(suffix);
